@@ -118,7 +118,7 @@ fn gen_re(r: &mut StdRng, d: u32, top: bool) -> String {
 
 pub fn gen_modes(r: &mut StdRng, p: &Profile) -> Vec<RealMode> {
     let nm = r.gen_range(1..=p.max_modes);
-    let mut modes = vec![];
+    let mut modes: Vec<RealMode> = vec![];
     for mi in 0..nm {
         let np = r.gen_range(p.min_pats..=p.max_pats);
         let mut tts: Vec<usize> = (0..12).collect();
@@ -141,6 +141,11 @@ pub fn gen_modes(r: &mut StdRng, p: &Profile) -> Vec<RealMode> {
                 None
             };
             pats.push(RealPat { pattern, tt: tts[k], la });
+        }
+        // now and then a mode has exactly the patterns of an earlier mode and differs from it only
+        // in its transitions (compiled data shared between such modes must not include them)
+        if mi > 0 && r.gen_bool(0.2) {
+            pats = modes[r.gen_range(0..mi)].pats.clone();
         }
         let mut trans: Vec<(usize, usize)> = vec![];
         if nm > 1 {
